@@ -123,6 +123,7 @@ class Instance:
     def __init__(self, cls):
         self.cls = cls
         self.fields = {}
+        self.stubs = {}        # harness-supplied implementations of abstract methods: name -> python callable(interp, *args)
 
     def __repr__(self):
         return f'<Instance {self.cls.name} {self.fields}>'
@@ -243,6 +244,7 @@ class Frame:
         self.yields = None
         self.is_pyx = module.is_pyx if module else False
         self.ret_ctype = None
+        self.try_depth = 0
 
 
 class GuardedList:
@@ -688,7 +690,16 @@ class Interp:
             v = self.to_ctype(v, fr.ret_ctype)
         g = self.active()
         fr.retval = ite(g, v, fr.retval)
-        fr.returned = simp_bool(lor(fr.returned, g))
+        if fr.try_depth == 0:
+            # Outside any try block of this frame the paths on which an exception is pending can never become active
+            # again in this frame, so "returned" may be recorded without the not-raised conjunct; this lets a
+            # `return` reached on every non-raising path end the function syntactically.
+            parts = list(self.guards) + [lnot(fr.returned)]
+            for lp in fr.loops:
+                parts += [lnot(lp.broke), lnot(lp.cont)]
+            fr.returned = simp_bool(lor(fr.returned, land(*parts)))
+        else:
+            fr.returned = simp_bool(lor(fr.returned, g))
 
     def st_Break(self, st):
         lp = self.frame.loops[-1]
@@ -804,10 +815,13 @@ class Interp:
         pre = self.raised
         if pre is True:
             return
+        self.frame.try_depth += 1
         try:
             self.exec_block(st.body)
         except _Abort:
             pass
+        finally:
+            self.frame.try_depth -= 1
         new = simp_bool(land(self.raised, lnot(pre)))
         if new is False:
             return
@@ -916,6 +930,8 @@ class Interp:
                 return v
             if attr == '__attrs_init__' and obj.cls.is_attrs:
                 return ModelMethod(obj, '__attrs_init__')
+            if attr in obj.stubs:
+                return ModelMethod(obj, attr)
             m = obj.cls.find_method(self, attr)
             if m is not None:
                 if any(d in ('property',) for d in m.decorators):
@@ -1035,6 +1051,10 @@ class Interp:
         for op, rn in zip(node.ops, node.comparators):
             right = self.eval(rn)
             r = self.compare(op, left, right)
+            if not isinstance(r, (bool,)) and not is_sym(r):
+                if len(node.ops) != 1:
+                    raise CannotEncode('chained comparison of arrays')
+                return r          # element-wise result (numpy array comparison)
             res = land(res, r)
             left = right
         return simp_bool(res)
